@@ -17,6 +17,7 @@ import (
 	modbus "github.com/aldas/go-modbus-client"
 	"github.com/aldas/go-modbus-client/packet"
 	"github.com/aldas/go-modbus-client/verifshim/vtime"
+	"verif/clientx"
 	"verif/ev"
 	"verif/lib"
 	"verif/spec"
@@ -35,9 +36,18 @@ func (c *seqConn) Write(p []byte) (int, error) {
 	if err != nil {
 		return len(p), nil
 	}
+	setServerID(c.dev, rq)
 	reply := c.dev.Handle(rq).Frame(c.rtu)
 	h := (len(reply) + 1) / 2
-	c.chunks = append(c.chunks, append([]byte(nil), reply[:h]...), append([]byte(nil), reply[h:]...))
+	if rq.FC == 17 {
+		// delivered whole: where a Read Server ID reply may be cut is the business of the main check (and of the known
+		// findings C07-F1 / F2: the unchanged client stops at its guessed length); here only the history matters
+		h = len(reply)
+	}
+	c.chunks = append(c.chunks, append([]byte(nil), reply[:h]...))
+	if h < len(reply) {
+		c.chunks = append(c.chunks, append([]byte(nil), reply[h:]...))
+	}
 	return len(p), nil
 }
 
@@ -67,6 +77,14 @@ func (c *seqConn) SetDeadline(t time.Time) error      { c.rdl = t; return nil }
 func (c *seqConn) SetReadDeadline(t time.Time) error  { c.rdl = t; return nil }
 func (c *seqConn) SetWriteDeadline(t time.Time) error { return nil }
 
+// setServerID: the length of the Read Server ID reply depends on the unit asked (units behind a gateway): unit u answers
+// with u bytes of id.
+func setServerID(d *spec.Device, rq spec.Req) {
+	if rq.FC == 17 {
+		d.ServerID = lib.Pattern("pos", int(rq.Unit), 0)
+	}
+}
+
 type SeqCase struct {
 	Kind string     `json:"client"`
 	Reqs []spec.Req `json:"requests"`
@@ -82,15 +100,48 @@ func sequenceCheck(res *ev.Result) (calls int64) {
 		{FC: 4, Unit: 1, Addr: 7, Qty: 1}, {FC: 1, Unit: 1, Addr: 3, Qty: 19}, {FC: 16, Unit: 1, Addr: 20, Qty: 2, Data: []byte{1, 2, 3, 4}},
 		{FC: 6, Unit: 1, Addr: 9, Value: 0x1234},
 	}
+	// longer histories: runs of 1..5 exception replies (three different codes) followed by ordinary calls; Read Server ID
+	// replies that grow and shrink from call to call (the reply length is not a function of the request)
+	exc := []spec.Req{{FC: 3, Unit: 1, Addr: 0xFFFF, Qty: 2}, {FC: 16, Unit: 1, Addr: 0xFFFF, Qty: 2, Data: []byte{1, 2, 3, 4}}, {FC: 1, Unit: 2, Addr: 0xFFF0, Qty: 19}}
+	var long [][]spec.Req
+	for n := 1; n <= 5; n++ {
+		for _, tail := range []spec.Req{alpha[0], alpha[5], exc[1]} {
+			var q []spec.Req
+			for i := 0; i < n; i++ {
+				q = append(q, exc[i%len(exc)])
+			}
+			long = append(long, append(append(q, tail), alpha[2]))
+			var q1 []spec.Req
+			for i := 0; i < n; i++ {
+				q1 = append(q1, exc[0])
+			}
+			long = append(long, append(q1, tail))
+		}
+	}
+	for _, us := range [][]uint8{{9, 2}, {2, 9}, {9, 9, 2}, {30, 3, 12}, {3, 30, 3}, {200, 1}, {1, 200, 1}} {
+		var q []spec.Req
+		for _, u := range us {
+			q = append(q, spec.Req{FC: 17, Unit: u})
+		}
+		long = append(long, q, append(append([]spec.Req{alpha[0]}, q...), alpha[1]))
+	}
 	for _, kind := range []string{"tcp", "rtu-net", "serial", "serial-flusher"} {
 		rtu := kind != "tcp"
+		var seqs [][]spec.Req
 		for i := range alpha {
 			for j := range alpha {
 				for k := range alpha {
 					if k != 0 && k != i { // triples: third call is either a repetition of the first or the first alphabet entry
 						continue
 					}
-					seq := []spec.Req{alpha[i], alpha[j], alpha[k]}
+					seqs = append(seqs, []spec.Req{alpha[i], alpha[j], alpha[k]})
+				}
+			}
+		}
+		seqs = append(seqs, long...)
+		{
+			{
+				for _, seq := range seqs {
 					conn := &seqConn{rtu: rtu, serial: kind == "serial" || kind == "serial-flusher", dev: spec.NewDevice(spec.ImageHash, spec.BitImage)}
 					vtime.ResetClock()
 					var cl doer
@@ -135,8 +186,20 @@ func sequenceCheck(res *ev.Result) (calls int64) {
 							ok = false
 							break
 						}
-						w := ref.Handle(dr).Frame(rtu)
-						resp, err := cl.Do(context.Background(), q)
+						setServerID(ref, dr)
+						wr := ref.Handle(dr)
+						w := wr.Frame(rtu)
+						resp, err := lib.SafeDo(cl.Do, context.Background(), q)
+						if wr.Exc {
+							// the device refuses: the call must end with the typed exception carrying the device's code
+							_, fn, code, _, isExc := clientx.ExceptionOf(err, rtu)
+							if !isExc || code != wr.ExCode || fn&0x7F != dr.FC {
+								fail("exception-not-reported", fmt.Sprintf("call %d: the device answered exception %d to function %d; the call returned (%v, %v)", n, wr.ExCode, dr.FC, resp, err))
+								ok = false
+								break
+							}
+							continue
+						}
 						if err != nil || lib.IsNil(resp) {
 							var ce *modbus.ClientError
 							_ = errors.As(err, &ce)
